@@ -17,6 +17,7 @@ All positive M, L, T; accepted parameters (G, Y, rho0 > 0, up ≥ 0).
 import EPV.Lemmas.EPPistonModels
 import EPV.Gen.EPPistonRun
 import EPV.Tactics
+import EPV.Lemmas.Bridge.EosTac
 
 set_option linter.all false
 
@@ -69,8 +70,9 @@ theorem hypo_units (p : EPPistonHypo.P) (M L T : ℝ) (hM : 0 < M) (hL : 0 < L) 
   have hG0 : p.G ≠ 0 := hG.ne'
   refine ⟨?_, ?_, ?_, ?_, ?_, ?_, ?_, ?_, ?_, ?_, ?_⟩
   · first | ring1 | (field_simp; done) | (field_simp; ring1)
-  · have : p.Y * (rh * v ^ 2) / (2 * (p.G * (rh * v ^ 2))) = p.Y / (2 * p.G) := by field_simp
-    rw [this]; ring
+  · -- the scale cancels inside the argument of `exp` / inside the denominator, however the code writes the quotient
+    have hs0 : rh * v ^ 2 ≠ 0 := by positivity
+    first | ring1 | (epv_eos_unify_args <;> first | ring1 | (field_simp; done) | (field_simp; ring1))
   · first | ring1 | (field_simp; done) | (field_simp; ring1)
   · first | ring1 | (field_simp; done) | (field_simp; ring1)
   · rw [← epp_sqrt_units v _ hv]
@@ -138,8 +140,9 @@ theorem ifin_units (p : EPPistonIfin.P) (M L T : ℝ) (hM : 0 < M) (hL : 0 < L) 
   have hG0 : p.G ≠ 0 := hG.ne'
   refine ⟨?_, ?_, ?_, ?_, ?_, ?_, ?_, ?_, ?_, ?_, ?_⟩
   · first | ring1 | (field_simp; done) | (field_simp; ring1)
-  · have : p.Y * (rh * v ^ 2) / (2 * (p.G * (rh * v ^ 2))) = p.Y / (2 * p.G) := by field_simp
-    rw [this]; ring
+  · -- the scale cancels inside the argument of `exp` / inside the denominator, however the code writes the quotient
+    have hs0 : rh * v ^ 2 ≠ 0 := by positivity
+    first | ring1 | (epv_eos_unify_args <;> first | ring1 | (field_simp; done) | (field_simp; ring1))
   · first | ring1 | (field_simp; done) | (field_simp; ring1)
   · first | ring1 | (field_simp; done) | (field_simp; ring1)
   · rw [← epp_sqrt_units v _ hv]
@@ -264,13 +267,13 @@ theorem epprun_units (p : EPPistonRun.P) (x t M L T : ℝ) (hM : 0 < M) (hL : 0 
     rw [this, mul_lt_mul_iff_right₀ hT]
   have e1 : EPPistonRun.c1 (eppRunScale p M L T) (L * x) (T * t) ↔ EPPistonRun.c1 p x t := by
     simp only [epv_cond, eppRunScale]
-    rw [show p.wv_pl * (L / T) * (T * t) = L * (p.wv_pl * t) by field_simp, mul_lt_mul_iff_right₀ hL]
+    epv_eos_scale_iff L, hL
   have e2 : EPPistonRun.c2 (eppRunScale p M L T) (L * x) (T * t) ↔ EPPistonRun.c2 p x t := by
     simp only [epv_cond, eppRunScale]
-    rw [show p.wv_pl * (L / T) * (T * t) = L * (p.wv_pl * t) by field_simp, mul_lt_mul_iff_right₀ hL]
+    epv_eos_scale_iff L, hL
   have e3 : EPPistonRun.c3 (eppRunScale p M L T) (L * x) (T * t) ↔ EPPistonRun.c3 p x t := by
     simp only [epv_cond, eppRunScale]
-    rw [show p.wv_el * (L / T) * (T * t) = L * (p.wv_el * t) by field_simp, mul_lt_mul_iff_right₀ hL]
+    epv_eos_scale_iff L, hL
   simp only [epv_tree]
   by_cases h0 : EPPistonRun.c0 p x t
   · simp only [if_pos h0, if_pos (e0.mpr h0)]
